@@ -146,6 +146,9 @@ def _work(chunk):
     drv = common.Driver()
     lines, meta, fails = [], [], []
     n = 0
+    # one transformer object used for every function of the chunk (the class is public API and
+    # `transform` resets its per-run state): its output must not depend on what it generated before
+    shared = SCFG2ASTTransformer()
     for kind, item in chunk:
         try:
             if kind == "src":
@@ -175,6 +178,22 @@ def _work(chunk):
         hy = hygiene(src_names, ast.parse(text).body[0])
         if hy:
             fails.append((kind, item, "introduces-names-outside-the-reserved-namespace", str(hy)))
+        # regenerate from the same restructured graph: once more with a fresh transformer, once with
+        # the shared one; both must reproduce the first text (a changed text is then judged by the
+        # census, so that the report names what was lost or duplicated)
+        orig = ast.parse(item).body[0] if kind == "src" else ORIG
+        for how, tr in (("regenerated-from-the-same-graph", SCFG2ASTTransformer()), ("reused-transformer", shared)):
+            try:
+                f2 = tr.transform(original=orig, scfg=scfg)
+                t2 = ast.unparse(f2)
+            except Exception as e:  # noqa: BLE001
+                fails.append((kind, item, f"{how}:raises-{type(e).__name__}", ""))
+                continue
+            if t2 != text:
+                e2, g2 = census(scfg, f2)
+                ce, cg = Counter(e2), Counter(g2)
+                fails.append((kind, item, f"{how}:output-differs",
+                              f"lost={sorted((ce - cg).elements())[:4]} extra={sorted((cg - ce).elements())[:4]}"))
     rep = drv.run(lines) if lines else []
     for (kind, item, exp, got), r in zip(meta, rep):
         if r != "1":
